@@ -40,8 +40,8 @@ EVALS = [  # evaluator, symbolic getter, strict 2-D shape?
 def plan(tier):
     q = tier == "quick"
     return [
-        {"lane": "main", "n": 320 if q else 30000, "timeout": 900 if q else 3300, "min_per_shard": 8},
-        {"lane": "cython", "n": 8 if q else 160, "timeout": 1500 if q else 3300, "min_per_shard": 1, "max_shards": 16,
+        {"lane": "main", "n": 320 if q else 5000, "timeout": 900 if q else 3300, "min_per_shard": 8},
+        {"lane": "cython", "n": 8 if q else 96, "timeout": 1500 if q else 3300, "min_per_shard": 1, "max_shards": 16,
          "optional": True},
         {"lane": "catalogue", "n": len(CATALOGUE), "timeout": 1200, "min_per_shard": 1, "max_shards": 16},
     ]
